@@ -119,7 +119,7 @@ EXTRA_TEXT = {
     "C11": " Also decided: strict free-track filter in front of the workload sort, hitch-hiking refuses conflicts, swap steps build on each other, receiver type check for dummy providers, one substitute for infinity.",
     "C12": " Also decided: bisection stop test and which node time each search reads, reference times, both halves of the gap-test guard, loop form of the walks, depots of a path stripped independently for dummy tours, Path::new validates every hop, the two node orders, Infinity - x = Infinity, the gap test reached for dummy and real tours.",
     "C13": " Also decided: remove_segment guard, enumerate-before-filter in fit_path_into_tour, overwrite index of the overflow fallback, order-keeping formation edits, None-only-if-reachable of the two position searches, hitch-hiking refuses conflicts, the steps of a swap build on each other, the depot test of update_train_formation.",
-    "C14": " Also decided: direction of all four arc kinds, connection bound/cost forms, decoder key provenance, zero-flow polarity, end depots decoded, spawning cost over all five rates, idle cost waived only next to a depot, the range sentinels are the extremes of the derived NodeIdx order, the turnaround tables, Nowhere infinitely far in both directions, the decoder takes the tour it continues, every vehicle type is solved, durations priced in seconds.",
+    "C14": " Also decided: a trip arc's lower bound is min(required vehicles, per-trip formation limit) from the same limit getter as its upper bound; direction of all four arc kinds, connection bound/cost forms, decoder key provenance, zero-flow polarity, end depots decoded, spawning cost over all five rates, idle cost waived only next to a depot, the range sentinels are the extremes of the derived NodeIdx order, the turnaround tables, Nowhere infinitely far in both directions, the decoder takes the tour it continues, every vehicle type is solved, durations priced in seconds.",
     "C15": " Also decided since §7.4: cycle neighbours (p-1/p+1 with wrap tests, end/start depots), counter deltas with signs, total signs and clamping, 3-opt transfer operands, the four slices of the new cycle, index order i<j<k, lookup written on every path.",
     "C16": " Also decided: maintenance_considered polarity, successor formula with wrap-around, transitions stored (not merged).",
     "C17": " Also decided: network formulas and predicates (can_reach, turnaround, idle time, duration, Nowhere => Infinity, type compatibility), overflow capacity formula, loader completeness loops, zero-passenger substitution.",
